@@ -347,18 +347,23 @@ Definition sdump (k : kind) (o : aobj) : list sent :=
 Inductive stok := TK | TR | TG (e : sent) | TKn (n : Z).
 Definition sout := (stok * list sent * list sent)%type.
 
-(* ---- property_match: index of the entry selected, None = refused ---- *)
-Definition spec_match (m : bytes) (mlen : Z) (names : list bytes) : option nat :=
-  let hit (n : bytes) :=
-    if mlen <? 0 then beq (lowers n) (lowers m)
-    else beq (lowers (firstn (Z.to_nat mlen) n)) (lowers (firstn (Z.to_nat mlen) m)) in
-  let idx := filter (fun i => hit (nth i names [])) (seq 0 (List.length names)) in
-  match idx with
+(* ---- matching a name against the listed names: index of the entry selected, None = refused ----
+   an entry is hit when the whole name (mlen < 0) or the first mlen characters agree without regard to case;
+   the first hit is selected, unless it is at least mlen long and a later entry is hit as well (ambiguous) *)
+Definition name_hit (m : bytes) (mlen : Z) (n : bytes) : bool :=
+  if mlen <? 0 then beq (lowers m) (lowers n)
+  else beq (lowers (firstn (Z.to_nat mlen) m)) (lowers (firstn (Z.to_nat mlen) n)).
+Fixpoint first_hit (f : bytes -> bool) (l : list bytes) (i : nat) : option (nat * bytes * list bytes) :=
+  match l with
   | [] => None
-  | i :: rest =>
+  | n :: r => if f n then Some (i, n, r) else first_hit f r (S i)
+  end.
+Definition spec_match (m : bytes) (mlen : Z) (names : list bytes) : option nat :=
+  match first_hit (name_hit m mlen) names 0 with
+  | None => None
+  | Some (i, n, rest) =>
     if mlen <? 0 then Some i
-    else if (Z.to_nat mlen <=? List.length (nth i names []))%nat then (match rest with [] => Some i | _ => None end)
-    else Some i
+    else if (mlen <=? Z.of_nat (List.length n)) && existsb (name_hit m mlen) rest then None else Some i
   end.
 
 (* get by name: the listed property selected by the matching rule (spec_match; the rule is stated and proved
